@@ -4,7 +4,7 @@ import ast
 from dlint.model import AnalysisError, dotted, norm, strip_docstring
 from rules import evrules
 from rules.evrules import EVENTS, HANDLERS
-from rules.lifecycle import chain, unwrap_iter
+from rules.lifecycle import chain, unwrap_iter, unget
 
 EXPLANATION = (
     'Static rules over desper/events.py. deliver: every loop over the '
@@ -27,12 +27,37 @@ NOT_DECIDED = ['distinct handlers that compare equal (weak references compare '
 ASSUMPTIONS = ['set.add is idempotent; weakref.ref(h) == weakref.ref(h)']
 
 
-def _method_expr_canon(node, loopvars):
-    """Normalise the 'method' expression, renaming loop variables."""
-    t = norm(node)
-    for i, v in enumerate(loopvars):
-        t = t.replace(v, f'$v{i}')
-    return t
+def _rename(text, mapping):
+    """Rename identifiers (whole-word) in an expression text."""
+    try:
+        tree = ast.parse(text, mode='eval').body
+    except SyntaxError:
+        return text
+
+    class R(ast.NodeTransformer):
+        def visit_Name(self, n):
+            return ast.Name(mapping.get(n.id, n.id), n.ctx)
+    return norm(R().visit(tree))
+
+
+class _TabDomain(evrules.EvDomain):
+    """Records, at stores into _handlers, the element model of local lists."""
+
+    def for_counts(self, st, node, itersym):
+        return [1]
+
+    def on_event(self, st, ev):
+        if ev.kind == 'store' and ev.target is not None and HANDLERS in \
+                ev.target.text:
+            models = {}
+            for n in ast.walk(ev.sym.node):
+                if isinstance(n, ast.Name):
+                    sv = st.frame.env.get(n.id)
+                    if sv is not None and sv.tag == 'mutable' and sv.info:
+                        models[n.id] = [e.text for e in sv.info[0]]
+            ev.extra = dict(ev.extra or {})
+            ev.extra['models'] = models
+        return super().on_event(st, ev)
 
 
 def check_tables(program, rep):
@@ -40,153 +65,206 @@ def check_tables(program, rep):
     f = program.method('EventDispatcher', 'add_handler', inherited=False)
     site = f.where
     h = f.params()[1]
-    # the weak reference
-    refs = [n for n in ast.walk(f.node) if isinstance(n, ast.Assign)
-            and isinstance(n.value, ast.Call)
-            and dotted(n.value.func) in ('weakref.ref', 'ref')
-            and n.value.args and norm(n.value.args[0]) == h]
-    if len(refs) != 1 or not isinstance(refs[0].targets[0], ast.Name):
-        rep.inconclusive('C03.tables', site, f.node.name,
-                         'no single `ref = weakref.ref(handler, ..)`')
-        return
-    ref = refs[0].targets[0].id
-    # insertion into _events
-    ins = []
-    for n in ast.walk(f.node):
-        if isinstance(n, ast.Call) and isinstance(n.func, ast.Attribute) \
-                and n.func.attr in ('add', 'append', 'insert', 'appendleft'):
-            b, keys = chain(n.func.value)
-            if b == EVENTS:
-                ins.append(n)
-    rep.floor('C03.tables', 'insertions into _events in add_handler',
-              len(ins), 1)
-    if not ins:
-        return
-    call = ins[0]
-    recv = call.func.value
-    made_set = None
-    if isinstance(recv, ast.Call) and isinstance(recv.func, ast.Attribute) \
-            and recv.func.attr == 'setdefault' and len(recv.args) == 2:
-        d = recv.args[1]
-        made_set = (isinstance(d, ast.Call) and dotted(d.func) == 'set'
-                    and not d.args)
-        key_events = norm(recv.args[0])
-    else:
-        b, keys = chain(recv)
-        key_events = norm(keys[0]) if keys else None
-        for n in ast.walk(f.node):
-            if isinstance(n, ast.Assign):
-                bb, kk = chain(n.targets[0])
-                if bb == EVENTS and len(kk) == 1:
-                    made_set = (isinstance(n.value, ast.Call)
-                                and dotted(n.value.func) == 'set'
-                                and not n.value.args)
-    rep.check(bool(made_set) and call.func.attr == 'add', 'C03.idempotent',
-              site, call,
+    from dlint.walk import Walker
+    w = Walker(program, _TabDomain(program))
+    exits = [e for e in w.run(f, disp) if e.kind != 'raise']
+    rep.count('paths', len(exits))
+    items_iter = f'{h}.__events__.items()'
+    n_ins = 0
+    bad_idem = bad_tab = None
+    for ex in exits:
+        tr = ex.state.trace
+        inserts = []
+        hstores = []
+        for e in tr:
+            if e.kind == 'call' and isinstance(e.sym.node, ast.Call) \
+                    and isinstance(e.sym.node.func, ast.Attribute) \
+                    and e.sym.node.func.attr in ('add', 'append', 'insert',
+                                                 'appendleft') \
+                    and EVENTS in norm(e.sym.node.func.value):
+                inserts.append(e)
+            if e.kind == 'store' and e.target is not None and \
+                    e.target.text.startswith(HANDLERS + '['):
+                hstores.append(e)
+        loops = [e for e in tr if e.kind == 'for-item'
+                 and e.sym.text == items_iter]
+        if not inserts:
+            continue
+        n_ins += len(inserts)
+        pairs_events = []
+        ref_text = None
+        for e in inserts:
+            cn = e.sym.node
+            recv = cn.func.value
+            made_set = False
+            key = None
+            if isinstance(recv, ast.Call) and isinstance(
+                    recv.func, ast.Attribute) and recv.func.attr == \
+                    'setdefault' and len(recv.args) == 2:
+                d = recv.args[1]
+                made_set = isinstance(d, ast.Call) and dotted(
+                    d.func) == 'set' and not d.args
+                key = norm(recv.args[0])
+            else:
+                b, keys = chain(recv)
+                key = norm(keys[0]) if keys else None
+                made_set = any(
+                    x.kind == 'store' and x.target is not None
+                    and x.target.text == f'{EVENTS}[{key}]' and norm(
+                        x.sym.node) == 'set()' for x in tr) or any(
+                    x.kind == 'call' and norm(x.sym.node).startswith(
+                        f'{EVENTS}.setdefault({key}, set())') for x in tr)
+            if not made_set or cn.func.attr != 'add':
+                bad_idem = e
+            el = cn.args[0] if cn.args else None
+            if isinstance(el, ast.Tuple) and len(el.elts) == 2:
+                ref_text = norm(el.elts[0])
+                pairs_events.append((key, norm(el.elts[1])))
+            else:
+                bad_tab = (e, 'the element filed under _events is not a '
+                           '(reference, method) pair')
+        if not loops or len(pairs_events) != len(loops):
+            bad_tab = bad_tab or (inserts[0], 'the listener entries are not '
+                                  'filed once per mapped event of the handler')
+            continue
+        item = loops[0].target.text
+        ren = {item: 'ITEM_'}
+        ev_pairs = {(_rename(k, ren) if k else k, _rename(m, ren))
+                    for k, m in pairs_events}
+        if len(hstores) != 1:
+            bad_tab = bad_tab or (inserts[0], f'{len(hstores)} stores into '
+                                  '_handlers on a path of add_handler')
+            continue
+        hs = hstores[0]
+        hkey = hs.target.text[len(HANDLERS) + 1:-1]
+        v = evrules.beta_reduce(program, disp, hs.sym.node)
+        if isinstance(v, ast.Call) and dotted(v.func) in (
+                'tuple', 'list', 'frozenset', 'set') and len(v.args) == 1:
+            v = v.args[0]
+        h_pairs = None
+        if isinstance(v, (ast.GeneratorExp, ast.ListComp)) and len(
+                v.generators) == 1 and norm(v.generators[0].iter) \
+                == items_iter and not v.generators[0].ifs \
+                and isinstance(v.elt, ast.Tuple) and len(v.elt.elts) == 2:
+            tg = v.generators[0].target
+            names = [norm(x) for x in (tg.elts if isinstance(tg, ast.Tuple)
+                                       else [tg])]
+            r2 = {}
+            if len(names) == 2:
+                r2 = {names[0]: 'ITEM_[0]', names[1]: 'ITEM_[1]'}
+            # rename through a textual substitution of the unpacked names
+            def rn(t):
+                tree = ast.parse(t, mode='eval').body
+
+                class R(ast.NodeTransformer):
+                    def visit_Name(self, n):
+                        if n.id in r2:
+                            return ast.parse(r2[n.id], mode='eval').body
+                        return n
+                return norm(R().visit(tree))
+            h_pairs = {(rn(norm(v.elt.elts[0])), rn(norm(v.elt.elts[1])))}
+        elif isinstance(v, ast.Name) and v.id in (hs.extra or {}).get(
+                'models', {}):
+            h_pairs = set()
+            for t in hs.extra['models'][v.id]:
+                tn = ast.parse(t, mode='eval').body
+                if isinstance(tn, ast.Tuple) and len(tn.elts) == 2:
+                    h_pairs.add((_rename(norm(tn.elts[0]), ren),
+                                 _rename(norm(tn.elts[1]), ren)))
+        if h_pairs is None:
+            bad_tab = bad_tab or (hs, 'the value stored under _handlers[ref] '
+                                  'is not built from the (event, method) '
+                                  "pairs of the handler's mapping")
+            continue
+        if hkey != ref_text or h_pairs != ev_pairs:
+            bad_tab = bad_tab or (
+                hs, f'_events receives {sorted(ev_pairs)} under reference '
+                f'{ref_text}; _handlers[{hkey}] records {sorted(h_pairs)}: '
+                'removal cannot find what was inserted, or a mapped event is '
+                'not registered')
+    rep.floor('C03.tables', 'insertions into _events on the paths of '
+              'add_handler', n_ins, 1)
+    rep.check(bad_idem is None, 'C03.idempotent', site,
+              bad_idem.node if bad_idem is not None else '.add(...)',
               'listeners of an event are kept in a set filled with add: '
               'registering twice does not duplicate deliveries',
               'the listener container is not a set filled with .add(): '
               'registering a handler twice doubles its deliveries and one '
               'remove_handler leaves a stale entry that still receives events',
-              line=call.lineno)
-    elem = call.args[0] if call.args else None
-    # enclosing loop over handler.__events__.items()
-    loops = [n for n in ast.walk(f.node) if isinstance(n, ast.For)
-             and any(x is call for x in ast.walk(n))]
-    lv = []
-    it_ok = False
-    if loops:
-        lp = loops[0]
-        it_ok = norm(lp.iter) == f'{h}.__events__.items()'
-        lv = [norm(x) for x in (lp.target.elts if isinstance(
-            lp.target, ast.Tuple) else [lp.target])]
-    ok_elem = (isinstance(elem, ast.Tuple) and len(elem.elts) == 2
-               and norm(elem.elts[0]) == ref)
-    meth1 = _method_expr_canon(elem.elts[1], lv) if ok_elem else None
-    ok_key = bool(lv) and key_events == lv[0]
-    # the _handlers side
-    hs = [n for n in ast.walk(f.node) if isinstance(n, ast.Assign)
-          and chain(n.targets[0])[0] == HANDLERS]
-    meth2 = None
-    pair_ok = False
-    if len(hs) == 1:
-        b, keys = chain(hs[0].targets[0])
-        v = hs[0].value
-        if isinstance(v, ast.Call) and dotted(v.func) in ('tuple', 'list',
-                                                          'frozenset', 'set') \
-                and len(v.args) == 1:
-            v = v.args[0]
-        if isinstance(v, (ast.GeneratorExp, ast.ListComp)) and len(
-                v.generators) == 1 and norm(v.generators[0].iter) \
-                == f'{h}.__events__.items()' and not v.generators[0].ifs:
-            g = v.generators[0]
-            lv2 = [norm(x) for x in (g.target.elts if isinstance(
-                g.target, ast.Tuple) else [g.target])]
-            if isinstance(v.elt, ast.Tuple) and len(v.elt.elts) == 2 \
-                    and norm(v.elt.elts[0]) == lv2[0] and len(keys) == 1 \
-                    and norm(keys[0]) == ref:
-                pair_ok = True
-                meth2 = _method_expr_canon(v.elt.elts[1], lv2)
-    good = ok_elem and ok_key and it_ok and pair_ok and meth1 == meth2
-    rep.check(good, 'C03.tables', site, call,
+              line=getattr(getattr(bad_idem, 'node', None), 'lineno',
+                           f.node.lineno))
+    rep.check(bad_tab is None, 'C03.tables', site,
+              bad_tab[0].node if bad_tab else 'add_handler: both tables',
               'the same (ref, method) element is filed under _events[name] '
               'and as (name, method) under _handlers[ref], for every mapped '
-              'event',
-              'the two registration tables are not built from the same '
-              f'elements (element {norm(elem) if elem is not None else None}; '
-              f'method expressions {meth1} vs {meth2}): removal cannot find '
-              'what was inserted, or a mapped event is not registered',
-              line=call.lineno)
-    # class-level method (needed for tables: bound methods never compare
-    # identical across getattr calls) is C10's concern as well
-    # ---- _remove_weak_handler
+              'event', bad_tab[1] if bad_tab else '',
+              line=getattr(getattr(bad_tab[0], 'node', None), 'lineno',
+                           f.node.lineno) if bad_tab else f.node.lineno)
+    # ---- _remove_weak_handler (path based, aliases resolved)
     g = program.method('EventDispatcher', '_remove_weak_handler',
                        inherited=False)
     r = g.params()[1]
-    loops = [n for n in ast.walk(g.node) if isinstance(n, ast.For)]
-    ok = False
-    why = 'removal does not iterate the pairs recorded under the reference'
-    if len(loops) == 1 and norm(unwrap_iter(loops[0].iter)[0]) == \
-            f'{HANDLERS}[{r}]':
-        lp = loops[0]
-        lv = [norm(x) for x in (lp.target.elts if isinstance(
-            lp.target, ast.Tuple) else [lp.target])]
-        rem = [n for n in ast.walk(lp) if isinstance(n, ast.Call)
-               and isinstance(n.func, ast.Attribute)
-               and n.func.attr in ('remove', 'discard')]
-        if len(rem) == 1 and len(lv) == 2 and norm(rem[0].func.value) == \
-                f'{EVENTS}[{lv[0]}]' and rem[0].args and norm(
-                    rem[0].args[0]) == f'({r}, {lv[1]})':
-            ok = True
-        else:
-            why = ('the loop does not remove (ref, method) from '
-                   '_events[event_name] for each recorded pair')
-    dels = [n for n in ast.walk(g.node) if (isinstance(n, ast.Delete) and any(
-        norm(t) == f'{HANDLERS}[{r}]' for t in n.targets)) or (
-            isinstance(n, ast.Call) and norm(n.func) == f'{HANDLERS}.pop'
-            and n.args and norm(n.args[0]) == r)]
-    # the delete must come after the loop (top-level order)
-    order_ok = False
-    body = strip_docstring(g.node.body)
-    idx_loop = [i for i, s in enumerate(body) if any(
-        x in loops for x in ast.walk(s))]
-    idx_del = [i for i, s in enumerate(body) if any(
-        x in dels for x in ast.walk(s))]
-    if idx_loop and idx_del and min(idx_del) > max(idx_loop):
-        order_ok = True
-    rep.check(ok and bool(dels) and order_ok, 'C03.tables', g.where,
-              loops[0] if loops else g.node.name,
+    w = Walker(program, _TabDomain(program))
+    exits = [e for e in w.run(g, disp) if e.kind != 'raise']
+    bad = None
+    n_main = n_guard = 0
+    rec = f'{HANDLERS}[{r}]'
+    for ex in exits:
+        tr = ex.state.trace
+        known = None
+        for e in tr:
+            if e.kind == 'cond':
+                t = unget(e.sym.text)
+                if t == f'{r} in {HANDLERS}':
+                    known = e.extra
+                elif t == f'{rec} is None':
+                    known = not e.extra
+        muts = [e for e in tr if e.kind == 'del' or (
+            e.kind == 'call' and isinstance(e.sym.node, ast.Call)
+            and isinstance(e.sym.node.func, ast.Attribute)
+            and e.sym.node.func.attr in ('remove', 'discard', 'pop', 'clear'))]
+        if known is False:
+            n_guard += 1
+            if muts:
+                bad = bad or (muts[0], 'tables are changed although the '
+                              'reference is not registered')
+            continue
+        if known is None:
+            bad = bad or (g, 'removal of a handler that is not registered is '
+                          'not guarded: remove_handler raises KeyError')
+            continue
+        n_main += 1
+        items = [e for e in tr if e.kind == 'for-item'
+                 and unget(e.sym.text) == rec]
+        fors = [i for i, e in enumerate(tr) if e.kind == 'for-end'
+                and unget(e.sym.text) == rec]
+        for it in items:
+            t = it.target.text
+            want = f'{EVENTS}[{t}[0]].remove(({r}, {t}[1]))'
+            want2 = f'{EVENTS}[{t}[0]].discard(({r}, {t}[1]))'
+            if not any(e.kind == 'call' and norm(e.sym.node) in (want, want2)
+                       for e in tr):
+                bad = bad or (it, 'the loop does not remove (ref, method) '
+                              'from _events[event_name] for each recorded '
+                              'pair')
+        dels = [i for i, e in enumerate(tr) if (
+            e.kind == 'del' and unget(e.target.text) == rec) or (
+                e.kind == 'call' and norm(e.sym.node).startswith(
+                    f'{HANDLERS}.pop({r}'))]
+        if not fors:
+            bad = bad or (g, 'removal does not iterate the pairs recorded '
+                          'under the reference')
+        elif not dels or dels[0] < fors[0]:
+            bad = bad or (g, 'the reference is not dropped from _handlers '
+                          'after its entries (is_handler stays true / a '
+                          'later add_handler duplicates)')
+    rep.check(bad is None and n_main > 0 and n_guard > 0, 'C03.tables',
+              g.where, getattr(bad[0], 'node', None) if bad and hasattr(
+                  bad[0], 'node') else '_remove_weak_handler',
               'removal deletes exactly the recorded listener entries, then '
-              'the reference', why if not ok else
-              'the reference is not dropped from _handlers after its entries '
-              '(is_handler stays true / a later add_handler duplicates)',
+              'the reference; unknown references are ignored',
+              bad[1] if bad else 'no guarded / main path recognised',
               line=g.node.lineno)
-    guard = [n for n in ast.walk(g.node) if isinstance(n, ast.Compare)
-             and norm(n.left) == r and norm(n.comparators[0]) == HANDLERS]
-    rep.check(bool(guard), 'C03.tables', g.where, f'{r} not in {HANDLERS}',
-              'removing an unknown handler is a no-op',
-              'removal of a handler that is not registered is not guarded: '
-              'remove_handler raises KeyError', line=g.node.lineno)
     # ---- remove_handler / is_handler
     rh = program.method('EventDispatcher', 'remove_handler', inherited=False)
     hp = rh.params()[1]
